@@ -35,9 +35,55 @@ def lib():
     return _L
 
 
+class ChunkRaw(io.RawIOBase):
+    """A raw stream that answers every read with at most the next chunk size (cycled): the
+    environment's short reads, e.g. a pipe whose writer trickles."""
+
+    def __init__(self, data, chunks):
+        self._d = data
+        self._p = 0
+        self._c = list(chunks)
+        self._k = 0
+
+    def readable(self):
+        return True
+
+    def readinto(self, b):
+        if self._p >= len(self._d):
+            return 0
+        n = min(len(b), self._c[self._k % len(self._c)], len(self._d) - self._p)
+        self._k += 1
+        b[:n] = self._d[self._p : self._p + n]
+        self._p += n
+        return n
+
+
 class FakeStdin:
-    def __init__(self, data):
-        self.buffer = io.BytesIO(data)
+    """sys.stdin stand-in.  chunks=None: everything available at once (BytesIO);
+    chunks=[...]: a real io.BufferedReader over a raw stream with short reads."""
+
+    def __init__(self, data, chunks=None):
+        if chunks:
+            self.buffer = io.BufferedReader(ChunkRaw(data, chunks))
+        else:
+            self.buffer = io.BytesIO(data)
+
+
+def compositions(total, cap=64):
+    """All ways to cut `total` bytes into chunks (first `cap` of them, shortest chunks first)."""
+    out = []
+
+    def rec(rest, acc):
+        if len(out) >= cap:
+            return
+        if rest == 0:
+            out.append(tuple(acc))
+            return
+        for k in range(1, rest + 1):
+            rec(rest - k, acc + [k])
+
+    rec(total, [])
+    return out
 
 
 class SourceSys:
@@ -58,9 +104,11 @@ class SourceSys:
             self.real = aio.RawAudioSource(path, SR, sw, ch)
         elif kind == "wav":
             self.real = aio.WaveAudioSource(path)
-        elif kind == "stdin":
+        elif kind.startswith("stdin"):
             old = sys.stdin
-            sys.stdin = FakeStdin(data)
+            chunks = [int(x) for x in kind.split(":")[1].split(",")] if ":" in kind else None
+            sys.stdin = FakeStdin(data, chunks)
+            self.kind = kind = "stdin"
             try:
                 self.real = aio.StdinAudioSource(SR, sw, ch)
             finally:
@@ -244,6 +292,16 @@ def run(prop, tier):
                 else:
                     d, unpruned = (2, 4) if quick else (3, 6)
                 tasks.append((kind, n, sw, ch, d, unpruned, tier))
+    # stdin with short reads: every way of cutting the byte stream into chunks (small contents),
+    # fixed trickle patterns otherwise
+    for (sw, ch) in FORMATS:
+        for n in range(1, 7):
+            total = n * sw * ch
+            pats = compositions(total) if total <= 6 else [(1,), (3,), (5, 2), (sw * ch + 1,), (2 * sw * ch - 1, 1)]
+            for c in pats:
+                if len(c) == 1 and c[0] >= total:
+                    continue
+                tasks.append(("stdin:" + ",".join(map(str, c)), n, sw, ch, 1, 3 if quick else 4, tier))
     rep.cov["rule"] = ("an evaluation is one operation history replayed from scratch on a fresh real source next to the "
                        "reference model, every step's output compared; histories are distinct by construction; all are "
                        "non-trivial (at least one operation) except the empty root")
